@@ -9,7 +9,10 @@
         verdict (1/0) of validate_refs and of validate_refs_shipped over in_code_defs with the
         matcher simple_match, then the items failing the repaired rules and the shipped rules;
      c18 check-published ( view ) -> the same over published_defs;
-     c18 match x<pattern> x<value> -> supported(1/0) matches(1/0). *)
+     c18 match x<pattern> x<value> -> supported(1/0) matches(1/0);
+     c18 raterule x<country> x<cat> x<key> -> in-code(1/0) published(1/0) as-shipped-before-the-repair(1/0):
+        in_category_rates (RegimeDef.InCategoryRates, the rule on a combo's rate key) over in_code_defs and
+        published_defs, and in_category_rates_any_part (Key.Has) over in_code_defs. *)
 From Coq Require Import ZArith List String Bool.
 From Verif Require Import Base.Wire Defs.DefTypes Defs.DefEq Defs.RefCheck Defs.RefTables.
 Import ListNotations.
@@ -54,6 +57,14 @@ Definition run_c18 (args : list V) : list V :=
     else if String.eqb (opname o) "match" then
       match rest with
       | p :: v :: _ => [VB (pattern_supported (vs_ p)); VB (simple_match (vs_ p) (vs_ v))]
+      | _ => [verr "bad-c18-args"]
+      end
+    else if String.eqb (opname o) "raterule" then
+      match rest with
+      | cc :: cat :: k :: _ =>
+        [VB (in_category_rates (regime_for in_code_defs (vs_ cc)) (vs_ cat) (vs_ k));
+         VB (in_category_rates (regime_for published_defs (vs_ cc)) (vs_ cat) (vs_ k));
+         VB (in_category_rates_any_part (regime_for in_code_defs (vs_ cc)) (vs_ cat) (vs_ k))]
       | _ => [verr "bad-c18-args"]
       end
     else [verr "unknown-c18-op"]
